@@ -43,6 +43,7 @@ INITS = [
     [mrec("a", "x", ["b"], ["y"])],
     [mrec("a", "x", [], [], PAT), mrec("b", "y")],
     [mrec("A", "X"), mrec("a", "x")],
+    [mrec("f", "xyzq", ["g"])],   # only a long URI prefix: later additions register shorter ones
 ]
 
 
@@ -57,8 +58,8 @@ def all_ops(tier):
     return ops
 
 
-QUERY_PREFIXES = ["a", "A", "b", "c", "d", "e", "", "zz"]
-QUERY_URIS = ["x", "X", "y", "z", "w", "xy", "q"]
+QUERY_PREFIXES = ["a", "A", "b", "c", "d", "e", "f", "g", "", "zz"]
+QUERY_URIS = ["x", "X", "y", "z", "w", "xy", "q", "xyzq"]
 
 
 def queries():
@@ -200,6 +201,22 @@ def execute(case, ctx=None):
 
 
 def replay(case):
+    if "tla_edge" in case:
+        import sys
+
+        from ..impl import VERIF
+
+        sys.path.insert(0, VERIF)
+        from models import conform
+
+        msg = conform.check_edge(case["tla_edge"])
+        return [("C05/implementation-disagrees-with-tla-model-edge/" + case["tla_edge"]["kind"], msg)] if msg else []
+    if "tla_states" in case:
+        from ..engine import Merged
+
+        t = Merged()
+        tla_phase("quick" if case["tla_states"] == 2 else "thorough", t)
+        return [(v["signature"], v["message"]) for v in t.violations]
     fails, _, _ = execute(case, None)
     return fails
 
@@ -266,21 +283,59 @@ def explore(tier, seed, procs=None):
         frontier = nxt
         if total.violations or total.errors:
             break
+    if not total.violations and not total.errors:
+        tla_phase(tier, total)
     total.samples = samples[:4]
     total.counters["depth_completed"] = levels[-1]["depth"] if levels else 0
     total.levels = levels
     return total
 
 
+TLA_DEPTH = {"quick": 2, "thorough": 3}
+
+
+def tla_phase(tier, total):
+    """Second, independent model: TLC explores models/AddRecord.tla over the same (pattern-free) alphabet; every edge of
+    its dumped state graph is replayed against the real Converter, and its reachable converters must equal ours."""
+    import sys, os
+
+    from ..impl import VERIF
+
+    sys.path.insert(0, VERIF)
+    from models import conform
+
+    try:
+        rep = conform.run(TLA_DEPTH[tier], workers=8)
+    except AssertionError as e:
+        total.errors.append((-1, f"TLC phase failed: {e}"))
+        return
+    total.counters["tlc_distinct_states"] = rep["tlc_distinct_states"]
+    total.counters["tlc_edges"] = rep["tlc_edges"]
+    total.counters["tlc_edges_validated_against_impl"] = rep["edges_validated_against_impl"]
+    total.counters["tlc_abstract_converters"] = rep["tlc_abstract_converters"]
+    total.counters["validated"] += rep["edges_validated_against_impl"]
+    for msg, edge in rep["disagreements"]:
+        total.violations.append({"signature": "C05/implementation-disagrees-with-tla-model-edge/" + edge["kind"], "message": msg, "case": {"tla_edge": edge}, "unit": None})
+        total.nviol += 1
+    if not rep["disagreements"] and not rep["state_sets_equal"]:
+        total.violations.append({"signature": "C05/reachable-converters-differ-from-tla-model", "message": f"{rep['only_tlc']} converters only reachable in the TLA+ model, {rep['only_python']} only by the implementation", "case": {"tla_states": TLA_DEPTH[tier]}, "unit": None})
+        total.nviol += 1
+
+
 def describe(tier):
     depth = {"quick": 3, "thorough": 4}[tier]
     return {
         "level": "model_checking",
-        "rule": "explicit-state BFS over histories of add_record/add_prefix on the real Converter from 4 initial "
+        "rule": "explicit-state BFS over histories of add_record/add_prefix on the real Converter from 5 initial "
         "converters; every frontier state x every operation is executed by replaying the history on fresh objects; "
         "states deduplicated by canonical form (delimiter, record set, five indexes); non-trivial = reached states "
         "with >= 2 records; lock-step reference model + differential comparison with a converter rebuilt from scratch",
-        "bounds": {"depth": depth, "operations": len(all_ops(tier)), "initial_states": len(INITS), "queries": len(Q) + len(QUERY_PREFIXES)},
+        "model_binding": "primary: the explorer drives the real Converter and steps the Python reference model in lock-step on every transition; "
+        "secondary: TLC explores models/AddRecord.tla (TLA+) over the same pattern-free operation alphabet to depth "
+        f"{TLA_DEPTH[tier]}, its complete state graph is dumped, EVERY edge is replayed against the real Converter (counter "
+        "tlc_edges_validated_against_impl) and its set of reachable converters must equal the one reached through the implementation; "
+        "TLC also checks the uniqueness invariant on the model",
+        "bounds": {"depth": depth, "tla_depth": TLA_DEPTH[tier], "operations": len(all_ops(tier)), "initial_states": len(INITS), "queries": len(Q) + len(QUERY_PREFIXES)},
         "exhaustive": True,
         "assumptions": [
             "operation alphabet: records over prefixes {a,A,b,c,d,e,''} and URI prefixes {x,X,y,z,w,xy}",
@@ -290,4 +345,4 @@ def describe(tier):
 
 
 def required_counters(tier):
-    return ["transitions", "validated", "outcome_merged", "outcome_rejected", "outcome_appended"]
+    return ["transitions", "validated", "outcome_merged", "outcome_rejected", "outcome_appended", "tlc_edges_validated_against_impl", "tlc_abstract_converters"]
